@@ -1,5 +1,155 @@
+(* KV.C34.Props — property theorems only.
+   Vocabulary (KV.C34.Model / Proofs): a cluster is a list of replicas of ONE key object; a replica
+   is (r_ent = the KeyInternalData value set stored in its entry, r_obj = the live key object the
+   plugin stages on and sign/verify use). `run fx cl ops` executes a history of assert / rotate /
+   revoke / sign / verify / commit (store + db + reload) / abort (reload) / replicate
+   (repl_merge_valueset + reload) / retain ops. `fx` selects the tree: true = /repo as it is (with
+   commit 2dbb6f7), false = the tree before that fix; every theorem below holds for BOTH unless it
+   names one. *)
 From Coq Require Import List NArith Bool.
 Import ListNotations.
 Require Import KV.C34.Model KV.C34.Proofs.
 Open Scope N_scope.
-Theorem C34_stub : True. Proof. exact I. Qed.
+
+(* REVOKED KEYS NEVER VERIFY. If key k is revoked (or absent) both in the stored entry and in the
+   live object of replica r0, then after ANY history - at any times, with reloads from storage,
+   aborted transactions, replication in either direction with any trim id, re-revocations,
+   rotations - no token carrying kid k, intact or tampered, of any usage, is accepted at r0.
+   Premises (safe_hist): newly generated key ids are not k (they are random in the code), and
+   no replica that still holds k un-revoked is merged into r0 (a source older than r0's trim
+   horizon; excluded in kanidm by the replication window / RUV check, see
+   C34_witness_stale_source_needed). *)
+Theorem C34_revoked_never : forall fx cl ops r0 k,
+  Ucl cl -> deadR (getr cl r0) k -> safe_hist fx cl r0 k ops ->
+  forall u good, verify (r_obj (getr (run fx cl ops) r0)) u k good <> VOk.
+Proof.
+  intros fx cl ops r0 k HU Hd Hs u good. apply dead_verify.
+  exact (proj2 (run_dead fx ops cl r0 k HU Hd Hs)).
+Qed.
+
+(* ... and the revoked state itself persists (entry and live object). *)
+Theorem C34_revoked_stays_revoked : forall fx cl ops r0 k,
+  Ucl cl -> deadR (getr cl r0) k -> safe_hist fx cl r0 k ops -> deadR (getr (run fx cl ops) r0) k.
+Proof. exact (fun fx cl ops r0 k => run_dead fx ops cl r0 k). Qed.
+
+(* A successful revoke takes effect at once on the live object: every key named in it is present
+   and revoked, so nothing signed by it verifies any more ... *)
+Theorem C34_revoke_immediate : forall fx cl r kids c cl' k u good,
+  Ucl cl -> step fx cl (ORevoke r kids c) = (cl', OutRev true) -> In k kids ->
+  verify (r_obj (getr cl' r)) u k good <> VOk.
+Proof.
+  intros fx cl r kids c cl' k u good HU Hs Hk. apply dead_verify.
+  exact (proj1 (revoke_dead_now fx cl r kids c cl' k HU Hs Hk)).
+Qed.
+
+(* ... and the following commit (store in the entry, db round trip, reload) makes it durable:
+   from then on C34_revoked_never applies. *)
+Theorem C34_revoke_commit_durable : forall fx cl r kids c cl' k,
+  Ucl cl -> step fx cl (ORevoke r kids c) = (cl', OutRev true) -> In k kids ->
+  deadR (getr (fst (step fx cl' (OCommit r))) r) k.
+Proof.
+  intros fx cl r kids c cl' k HU Hs Hk.
+  assert (HU' : Ucl cl') by (change cl' with (fst (cl', OutRev true)); rewrite <- Hs; now apply step_U).
+  destruct (revoke_dead_now fx cl r kids c cl' k HU Hs Hk) as [Hd Hx].
+  now apply commit_dead.
+Qed.
+
+(* Replication carries a revocation: if the source's entry holds k revoked, then after the merge
+   (whichever side plays `self`, whatever the trim id) k is revoked-or-absent on the receiver,
+   whatever the receiver held before (even k valid). *)
+Theorem C34_replication_spreads_revocation : forall fx cl src dst flip t k,
+  Ucl cl -> dead (r_ent (getr cl src)) k -> (exists x, In (k, x) (r_ent (getr cl src))) ->
+  deadR (getr (fst (step fx cl (ORepl src dst flip t))) dst) k.
+Proof. exact repl_spreads. Qed.
+
+(* ROTATION NEVER INVALIDATES OLDER, NON-REVOKED KEYS. A rotation changes no existing binding of
+   the key map (only adds the new keys) ... *)
+Theorem C34_rotation_keeps_old : forall fx o t c news k x,
+  (forall u, rot_kid news u <> k) ->
+  (In (k, x) (o_all (rotate fx o t c news)) <-> In (k, x) (o_all o)).
+Proof. exact rotate_keeps. Qed.
+
+(* ... and over whole histories: a key of usage u that is present and not revoked at r0 (entry and
+   live object) stays so, and its intact tokens keep verifying, through any number of rotations,
+   asserts, commits, aborts, retains, revocations of OTHER keys and replication from sources that
+   do not hold it revoked. *)
+Theorem C34_unrevoked_keeps_verifying : forall fx cl ops r0 u k,
+  Ucl cl -> aliveR u (getr cl r0) k -> keep_hist fx cl r0 u k ops ->
+  aliveR u (getr (run fx cl ops) r0) k /\
+  (mem u (o_pres (r_obj (getr (run fx cl ops) r0))) = true ->
+   verify (r_obj (getr (run fx cl ops) r0)) u k true = VOk).
+Proof.
+  intros fx cl ops r0 u k HU Ha Hk.
+  pose proof (run_alive fx ops cl r0 u k HU Ha Hk) as H. split; [exact H|].
+  intros Hm. apply alive_verify; [apply (run_U fx ops cl HU r0)|apply H|exact Hm].
+Qed.
+
+(* NEW SIGNATURES USE THE NEWEST NON-REVOKED KEY WHOSE VALIDITY HAS STARTED.
+   `newest_valid o u s r`: r = Some k -> k is a Valid key of usage u with valid_from <= s and no
+   Valid key of usage u with valid_from <= s is newer; r = None -> there is no such key at all.
+   (1) Unconditionally after every (re)load from storage, for any stored key set: *)
+Theorem C34_signer_newest_valid_after_reload : forall fx e u s,
+  uniq e -> newest_valid (load fx e) u s (signer (load fx e) u s).
+Proof.
+  intros fx e u s Hu. destruct (load_wf fx e Hu) as [HA HB]. now apply signer_spec.
+Qed.
+
+(* (2) The full statement: in EVERY state reachable from n empty replicas by ANY history whose
+   only restriction is that newly generated key ids are fresh (random 96-bit ids in the code),
+   the signer chosen for usage u at second s is the newest valid started key, and there is no
+   signer only if no such key exists. *)
+Definition C34_full_statement (fx : bool) : Prop :=
+  forall n ops, fresh_hist fx (repeat rep0 n) ops ->
+  forall r u s, newest_valid (r_obj (getr (run fx (repeat rep0 n) ops) r)) u s
+                             (signer (r_obj (getr (run fx (repeat rep0 n) ops) r)) u s).
+
+(* It HOLDS for the tree as it is (active map keyed by (valid_from, kid), commit 2dbb6f7). *)
+Theorem C34_signer_newest_valid : C34_full_statement true.
+Proof.
+  intros n ops Hf r u s.
+  destruct (run_wfX ops (repeat rep0 n) (wf_repeatX n) Hf r) as [_ [HA HB]].
+  apply signer_spec; [exact HA|now apply BinvX_Binv].
+Qed.
+
+(* The same from any well-formed cluster, and phrased on the observable results of `sign`. *)
+Theorem C34_signer_newest_valid_results : forall cl ops,
+  wf_clX cl -> fresh_hist true cl ops ->
+  forall r u t,
+    let o := r_obj (getr (run true cl ops) r) in
+    newest_valid o u (secs_of t) (signer o u (secs_of t)) /\
+    (forall k, sign o u t = SKid k -> newest_valid o u (secs_of t) (Some k)) /\
+    (sign o u t = SNoActive -> newest_valid o u (secs_of t) None).
+Proof.
+  intros cl ops HW Hg r u t o.
+  destruct (run_wfX ops cl HW Hg r) as [_ [HA HB]].
+  pose proof (signer_spec o u (secs_of t) HA (BinvX_Binv _ HB)) as Hs. split; [exact Hs|]. split.
+  - intros k Hk. apply sign_signer in Hk. fold o in Hk. now rewrite Hk in Hs.
+  - intros Hk. apply sign_noactive in Hk. fold o in Hk. now rewrite Hk in Hs.
+Qed.
+
+(* FOR THE RECORD (tree before 2dbb6f7, fx = false). The full statement was FALSE: revoking one of
+   two keys that became valid in the same second silenced the other one (confirmed on the real
+   code of that tree with harness `c34 --probe`; reversing the fix makes ./vcheck C34 fail). *)
+Theorem C34_prefix_refuted : ~ C34_full_statement false.
+Proof. intros H. apply cex_not_newest. apply (H 1%nat cex_ops). exact cex_fresh. Qed.
+
+(* It held on that tree (and holds on this one) for every history in which no revoke hits a key
+   that shares (usage, valid_from second) with another valid key. *)
+Theorem C34_prefix_signer_partial : forall fx cl ops,
+  wf_cl cl -> good_hist fx cl ops ->
+  forall r u t,
+    let o := r_obj (getr (run fx cl ops) r) in
+    newest_valid o u (secs_of t) (signer o u (secs_of t)) /\
+    (forall k, sign o u t = SKid k -> newest_valid o u (secs_of t) (Some k)) /\
+    (sign o u t = SNoActive -> newest_valid o u (secs_of t) None).
+Proof.
+  intros fx cl ops HW Hg r u t o.
+  destruct (run_wf fx ops cl HW Hg r) as [_ [HA HB]].
+  pose proof (signer_spec o u (secs_of t) HA HB) as Hs. split; [exact Hs|]. split.
+  - intros k Hk. apply sign_signer in Hk. fold o in Hk. now rewrite Hk in Hs.
+  - intros Hk. apply sign_noactive in Hk. fold o in Hk. now rewrite Hk in Hs.
+Qed.
+
+(* The start state of every case (n empty replicas) satisfies the invariants the theorems ask for. *)
+Theorem C34_initial_wf : forall n, wf_clX (repeat rep0 n) /\ wf_cl (repeat rep0 n) /\ Ucl (repeat rep0 n).
+Proof. intros n. split; [apply wf_repeatX|]. split; [apply wf_repeat|apply Ucl_repeat]. Qed.
